@@ -51,6 +51,7 @@ type c16KBState struct {
 	stored int               // checkpoint (store without load): 0 none, 1 taken and nothing changed since, 2 taken and the knowledge base changed afterwards
 	inst   int               // an instance was created and executed in the middle of the history: 0 never, 1 and nothing changed since, 2 and the knowledge base changed afterwards
 	ckpt   map[string]string // rules in the last checkpoint stream (nil: none taken)
+	tomb   string            // names removed through the library so far, sorted (implementation state the active set does not show: tombstones)
 }
 
 type c16State struct{ kbs []c16KBState }
@@ -58,7 +59,7 @@ type c16State struct{ kbs []c16KBState }
 func (s *c16State) clone() *c16State {
 	c := &c16State{}
 	for _, k := range s.kbs {
-		n := c16KBState{active: map[string]string{}, dirty: k.dirty, exists: k.exists, stored: k.stored, inst: k.inst}
+		n := c16KBState{active: map[string]string{}, dirty: k.dirty, exists: k.exists, stored: k.stored, inst: k.inst, tomb: k.tomb}
 		for a, b := range k.active {
 			n.active[a] = b
 		}
@@ -90,7 +91,7 @@ func (s *c16State) key() string {
 			sort.Strings(c)
 			ck = "[" + strings.Join(c, ",") + "]"
 		}
-		parts = append(parts, fmt.Sprintf("%v/%v/%v/%v/%s/%s", k.exists, k.dirty, k.stored, k.inst, strings.Join(a, ","), ck))
+		parts = append(parts, fmt.Sprintf("%v/%v/%v/%v/%s/%s/%s", k.exists, k.dirty, k.stored, k.inst, strings.Join(a, ","), ck, k.tomb))
 	}
 	return strings.Join(parts, " | ")
 }
@@ -146,6 +147,11 @@ func (s *c16State) apply(o c16Op) (ns *c16State, wantErr bool) {
 		}
 		if _, ok := k.active[o.arg]; ok && k.inst == 1 {
 			k.inst = 2
+		}
+		if _, ok := k.active[o.arg]; ok && !strings.Contains(k.tomb, o.arg) {
+			t := append(strings.Fields(k.tomb), o.arg)
+			sort.Strings(t)
+			k.tomb = strings.Join(t, " ")
 		}
 		delete(k.active, o.arg)
 	case "store":
